@@ -183,15 +183,19 @@ func (s *st) attempt(i int, symbolicVerifier bool) bool {
 		v = vBadChar
 	case 6:
 		v = s.challenge // whatever was sent as challenge, replayed as verifier
+		// (a free challenge that is its own S256 image exists only in the uninterpreted model)
+		zz.Assume(!(s.symChal && s.method == "S256"))
 		if v == "" {
 			absent = true
 		}
 	case 7:
 		v = vLong
 	case 8:
-		// a free challenge and a free verifier related by the hash cannot be replayed (the hash is an
-		// uninterpreted function): S256 is exercised with challenges the harness computed itself
-		zz.Assume(!(s.symChal && s.method == "S256"))
+		// a free challenge together with a free verifier is left out: under S256 the pair cannot be
+		// replayed (the hash is an uninterpreted function) and under plain the disequality of two long
+		// free strings exceeds the solver budget; symbolic challenges meet the concrete verifier family
+		// (and themselves, kind 6), the symbolic verifier meets the challenges the harness computed.
+		zz.Assume(!s.symChal)
 		v = zz.String("verifier", symLen)
 		zz.Assume(len(v) > 0)
 	}
